@@ -56,6 +56,14 @@ def dense(sp):
     return np.array(matrix(sp))
 ss = andes.load(andes.get_case(spec['case']), no_output=True, default_config=True, setup=False)
 ss.config.ipadd = spec['ipadd']
+if spec.get('island'):
+    # a radial bus carrying a shunt and a constant-impedance load, connected by one extra line that is opened later:
+    # the bus then is islanded while voltage-dependent devices on it stay in service
+    b0 = ss.Bus.idx.v[0]
+    ss.add('Bus', dict(idx='RB', name='RB', Vn=ss.Bus.Vn.v[0], v0=1.0, a0=0.0))
+    ss.add('Line', dict(idx='LRB', bus1=b0, bus2='RB', r=0.01, x=0.1, b=0.02, Vn1=ss.Bus.Vn.v[0], Vn2=ss.Bus.Vn.v[0]))
+    ss.add('Shunt', dict(idx='SRB', bus='RB', b=0.5, g=0.05, Vn=ss.Bus.Vn.v[0]))
+    ss.add('PQ', dict(idx='PRB', bus='RB', p0=0.1, q0=0.05, Vn=ss.Bus.Vn.v[0]))
 ss.setup()
 ss.PFlow.run(); ss.TDS.config.no_tqdm = 1; ss.TDS.init()
 tds, dae, models = ss.TDS, ss.dae, ss.exist.pflow_tds
@@ -67,6 +75,14 @@ patterns = None
 for pt in range(spec['points']):
     if spec.get('toggle') and pt == 1:
         ss.Line.u.v[0] = 0.0
+        # a parameter that enters Jacobian entries depending on parameters only (damping of the machines)
+        for mname in ('GENROU', 'GENCLS'):
+            mdl = ss.models[mname]
+            if mdl.n > 0:
+                mdl.alter('D', mdl.idx.v[0], float(mdl.D.v[0]) + 1.5)
+    if spec.get('island') and pt == 1:
+        ss.Line.alter('u', 'LRB', 0)
+        ss.connectivity(info=False)
     dae.x[:] += spec['amp'] * rng.normal(size=n); dae.y[:] += spec['amp'] * rng.normal(size=m)
     dae.t = np.array(0.5 + pt)
     ss.vars_to_models()
@@ -144,15 +160,18 @@ def assembled_stream(ctx):
         seed = ctx.rng.randrange(1 << 30)
         for ipadd in (1, 0):
             specs.append({'case': case, 'ipadd': ipadd, 'seed': seed, 'points': ctx.n(2, 4), 'amp': 1e-3, 'toggle': True})
+        specs.append({'case': case, 'ipadd': 1, 'seed': seed + 1, 'points': 2, 'amp': 1e-3, 'island': True})
     with mp.get_context('fork').Pool(8) as pool:
         res = pool.map(fd_job, specs)
     by_case = {}
     for sp, r in zip(specs, res):
         key = {k: sp[k] for k in ('case', 'ipadd', 'seed')}
+        key['island'] = bool(sp.get('island'))
         if 'error' in r:
             ctx.oracle_fail('assembled-run-raises', 'assembling the Jacobian raised: ' + r['error'][-200:], key)
             continue
-        by_case.setdefault(sp['case'], {})[sp['ipadd']] = r
+        if not sp.get('island'):
+            by_case.setdefault(sp['case'], {})[sp['ipadd']] = r
         for k, pt in enumerate(r['points']):
             ctx.case(json.dumps(dict(key, point=k), sort_keys=True), dict(key, point=k, maxdiff=pt['maxdiff'], nnz=pt['nnz']))
             ctx.count('assembled_points')
